@@ -19,9 +19,21 @@
             handler program: it is a schedule in which that loop does not move for a while, so [agrees] compares
             with the same deterministic model run as for ConnC (for single-request programs the log is the same
             for every schedule: Proofs.run_in_order_complete, all these runs are calm).
+   ConnX  : a real udp/client.Conn (layer 2, in-memory session) or tcp/client.Conn (layer 1, scripted stream), one
+            message at a time like ConnC, with the blocking operations and message constellations ConnC does not have:
+            confirmable nested requests answered by a piggybacked ACK ([HAck r; HNested r]: the acknowledgement is a
+            signal handled by the socket reader), pings issued by handlers ([HPing r]; tcp: the pong is not a queue
+            message), requests of the peer whose message ID is placed relative to the connection's own counter
+            (equal to the next ID drawn, across the 16-bit wrap, ...: [wr] records type and message ID of every
+            datagram, the model's message-ID lock does the rest), retransmitted copies of a request whose handler is
+            blocked.  [mids] = (own counter before Process, type, message ID, first ID drawn by the handler) for
+            requests whose handler draws an ID: compared with Reader/Mid.v.  [inj] = position of the last item handed to
+            the connection (a script stops at the first wait that ends without its effect): the accepted messages are the
+            items up to [inj].  [osig] = signals handed to the connection; [othr] (tcp) = (pong, its handler ran on the
+            socket reader's goroutine): in the model the socket reader handles the signals ([ASig]), no loop does.
    [pclass] evaluates the property (Reader/Spec.v) on the OBSERVED log only. *)
 From Coq Require Import ZArith NArith List Bool.
-From GoCoap Require Import Base.Cases Reader.Model Reader.Spec.
+From GoCoap Require Import Base.Cases Reader.Model Reader.Spec Reader.Mid.
 Import ListNotations.
 Open Scope Z_scope.
 
@@ -32,7 +44,14 @@ Inductive case :=
 | Stat (n : nat) (pr : list (Z * prog)) (msgs : list Z) (olog : list Z) (onest : list (Z * Z * bool)) (complete : bool)
 | ConnC (n : nat) (pr : list (Z * prog)) (msgs : list Z) (olog : list Z) (onest : list (Z * Z * bool)) (hang : bool)
 | Burst (layer : Z) (n : nat) (pr : list (Z * prog)) (k : nat) (held : list Z)
-        (olog : list Z) (onest : list (Z * Z * bool)) (hang : bool).
+        (olog : list Z) (onest : list (Z * Z * bool)) (hang : bool)
+| ConnX (layer : Z) (n : nat) (pr : list (Z * prog)) (msgs : list Z) (sg : list (Z * nat)) (wr : list (Z * (Z * Z)))
+        (mids : list (Z * Z * Z * Z)) (inj : Z) (olog : list Z) (osig : list Z) (othr : list (Z * bool))
+        (onest opings : list (Z * Z * bool)) (hang : bool).
+
+(* the repaired code *)
+Definition cfg_of (n : nat) (fx : bool) (pr : list (Z * prog)) (sg : list (Z * nat)) (wr : list (Z * (Z * Z))) : cfg :=
+  mkCfg n fx true true true pr sg wr.
 
 (* the messages of a burst: 1..k in arrival order *)
 Definition burst_msgs (k : nat) : list Z := map Z.of_nat (seq 1 k).
@@ -40,7 +59,7 @@ Definition burst_msgs (k : nat) : list Z := map Z.of_nat (seq 1 k).
 Definition pc_code (p : pc) : Z :=
   match p with
   | PSelect => 0 | PDeq _ => 1 | PBusy _ => 2 | PRun _ (_ :: _) => 3 | PRun _ [] => 4
-  | PWait _ _ _ => 5 | PCheck => 6 | PExit => 7
+  | PWait _ _ _ => 5 | PCheck => 6 | PExit => 7 | PWaitS _ _ _ => 8 | PLock _ => 9
   end.
 
 Definition obs_ok (s : st) (a : act) (o : Z) (nl : nat) : bool :=
@@ -70,11 +89,13 @@ Fixpoint list_eqb {A} (e : A -> A -> bool) (a b : list A) : bool :=
 
 (* nested calls of the model's final state: (m, r) is still waiting iff some loop sits in PWait m r *)
 Definition waiting (s : st) (m r : Z) : bool :=
-  existsb (fun lp => match l_pc lp with PWait m' r' _ => (m' =? m) && (r' =? r) | _ => false end) (loops s).
+  existsb (fun lp => match l_pc lp with
+                     | PWait m' r' _ | PWaitS m' r' _ => (m' =? m) && (r' =? r)
+                     | _ => false end) (loops s).
 Definition nest_ok (s : st) (onest : list (Z * Z * bool)) : bool :=
   forallb (fun e => match e with (m, r, ret) => Bool.eqb ret (negb (waiting s m r)) end) onest.
 
-Definition has_nested (p : prog) : bool := existsb (fun h => match h with HNested _ => true | HReplace => false end) p.
+Definition has_nested (p : prog) : bool := existsb (fun h => match h with HReplace => false | _ => true end) p.
 Definition blocking (pr : list (Z * prog)) (msgs : list Z) : bool := existsb (fun m => has_nested (lookup m pr)) msgs.
 
 (* computed from the observed scheduling points only: did a TryToReplaceLoop run while some loop
@@ -107,29 +128,38 @@ Definition observation (c : case) : obs :=
   match c with
   | Forced n pr msgs k tr olog onest hang =>
       mkObs (firstn (n_pushes tr) msgs) (map fst olog) (negb (has_close tr)) (negb hang)
-            (negb (blocking pr msgs) && calm_obs [] tr) onest
+            (negb (blocking pr msgs) && calm_obs [] tr) onest [] []
   (* free-running code and the real connection: an expired watchdog (30 s without the awaited state change while
      nobody but the code under test has anything to do) is a stall, so the run counts as observed to its end *)
   | Stat n pr msgs olog onest complete =>
-      mkObs msgs olog true true (negb (blocking pr msgs)) onest
+      mkObs msgs olog true true (negb (blocking pr msgs)) onest [] []
   | ConnC n pr msgs olog onest hang =>
-      mkObs msgs olog true true (negb (blocking pr msgs)) onest
+      mkObs msgs olog true true (negb (blocking pr msgs)) onest [] []
   (* the order clause applies when no handler blocked: no nested request and no handler held by the harness *)
   | Burst layer n pr k held olog onest hang =>
       let msgs := burst_msgs k in
-      mkObs msgs olog true true (negb (blocking pr msgs) && match held with [] => true | _ => false end) onest
+      mkObs msgs olog true true (negb (blocking pr msgs) && match held with [] => true | _ => false end) onest [] []
+  | ConnX layer n pr msgs sg wr mids inj olog osig othr onest opings hang =>
+      mkObs (filter (fun m => m <=? inj) msgs) olog true true (negb (blocking pr msgs)) onest osig opings
   end.
 
 (* real connections: compare with the model run under the deterministic scheduler *)
-Definition conn_agrees (n : nat) (pr : list (Z * prog)) (msgs olog : list Z) (onest : list (Z * Z * bool)) (hang : bool) : bool :=
-  let cf := mkCfg n true pr in
-  let s := run_canon (200 * (1 + length msgs)) cf (init msgs 0) in
+Definition connx_agrees (n : nat) (pr : list (Z * prog)) (msgs : list Z) (sg : list (Z * nat)) (wr : list (Z * (Z * Z)))
+           (olog : list Z) (onest : list (Z * Z * bool)) (hang : bool) : bool :=
+  let cf := cfg_of n true pr sg wr in
+  let s := run_canon (200 * (1 + length msgs + length sg)) cf (init msgs 0) in
   negb hang && list_eqb Z.eqb (map fst (log s)) olog && nest_ok s onest && quiescent cf s.
+Definition conn_agrees (n : nat) (pr : list (Z * prog)) (msgs olog : list Z) (onest : list (Z * Z * bool)) (hang : bool) : bool :=
+  connx_agrees n pr msgs [] [] olog onest hang.
+
+(* the IDs drawn by handlers: udp GetMessageID after checkMyMessageID (Reader/Mid.v) *)
+Definition mid_ok (mids : list (Z * Z * Z * Z)) : bool :=
+  forallb (fun e => match e with (c, typ, p, d) => drawn (check_my_mid c typ p) =? d end) mids.
 
 Definition agrees_shape (fx : bool) (c : case) : bool :=
   match c with
   | Forced n pr msgs k tr olog onest hang =>
-      let cf := mkCfg n fx pr in
+      let cf := cfg_of n fx pr [] [] in
       match run_obs cf (init msgs k) tr with
       | None => false
       | Some s => negb hang && list_eqb ent_eqb (log s) olog && nest_ok s onest && (closed s || quiescent cf s)
@@ -141,6 +171,9 @@ Definition agrees_shape (fx : bool) (c : case) : bool :=
   | Burst layer n pr k held olog onest hang =>
       ((layer =? 1) || (layer =? 2)) && forallb (fun m => (1 <=? m) && (m <=? Z.of_nat k)) held &&
       conn_agrees n pr (burst_msgs k) olog onest hang
+  | ConnX layer n pr msgs sg wr mids inj olog osig othr onest opings hang =>
+      ((layer =? 1) || (layer =? 2)) && mid_ok mids && forallb (fun e => snd e && existsb (fun g => fst g =? fst e) sg) othr && (inj =? Z.of_nat (length msgs + length sg - length (filter (fun e => existsb (Z.eqb (fst e)) msgs) sg))) &&
+      connx_agrees n pr msgs sg wr olog (onest ++ opings) hang
   end.
 
 (* the correspondence is with the model of the repaired code; [agrees_shape false] (the code before the
